@@ -42,6 +42,10 @@ func (c *c11) Cases(tier string, seed int64) []core.Case {
 		dims = append(dims, n)
 	}
 	dims = append(dims, 47, 48, 49, 56, 63, 64)
+	if tier != "thorough" {
+		// large enough that a different strategy for big products would apply
+		dims = append(dims, 101, 102, 103, 128, 160)
+	}
 	if tier == "thorough" {
 		for n := 41; n <= 130; n++ {
 			dims = append(dims, n)
